@@ -414,6 +414,36 @@ def run(tier, seed):
                         record({"class": "non-termination", "analysis": run_["analysis"], "workload": j["id"]},
                                {"kind": "corpus", "job": j, "observed": {"kind": "oscillation", "run": run_}})
 
+        # ---------------------------------------------------- deep nesting up to depth 200
+        depths = (10, 100, 200) if quick else (10, 50, 100, 150, 200)
+        dreqs = deep_requests(root, depths)
+        log(f"[C12] deep nesting: {len(dreqs)} generated headers up to depth {max(depths)}")
+        dres = run_requests(dreqs, timeout=600)
+        for rq, r in zip(dreqs, dres):
+            scen_total += 1
+            j = rq["job"]
+            k = r.get("kind")
+            outcomes[k] = outcomes.get(k, 0) + 1
+            distinct.add(("deep", j["id"]))
+            max_steps_ratio = max(max_steps_ratio, r.get("steps_ratio", 0))
+            kind_, depth_ = j["id"].split(":")[1:3]
+            if k == "panic":
+                site, msg = panic_site(r)
+                cls = "non-termination" if "BINDGEN_VERIF_STEP_BUDGET_EXCEEDED" in (r.get("err") or "") else "panic"
+                record({"class": cls, "tier": "deep-nesting", "shape": kind_, "site": site.rsplit(":", 1)[0]},
+                       {"kind": "corpus", "job": dict(j, inline_source=deep_source(kind_, int(depth_))[0][:4000]), "observed": r})
+            elif k in ("crash", "timeout"):
+                record({"class": k, "tier": "deep-nesting", "shape": kind_, "signal": r.get("status")},
+                       {"kind": "corpus", "job": j, "observed": r})
+            elif k == "err":
+                record({"class": "accepted-header-rejected", "tier": "deep-nesting", "shape": kind_},
+                       {"kind": "corpus", "job": j, "observed": r})
+            else:
+                for run_ in (r.get("fix") or {}).get("runs", []):
+                    if run_.get("oscillation") is not None:
+                        record({"class": "non-termination", "tier": "deep-nesting", "shape": kind_, "analysis": run_["analysis"]},
+                               {"kind": "corpus", "job": j, "observed": {"kind": "oscillation", "run": run_}})
+
         # ---------------------------------------------------- configuration sweep (seeded sampling of the flag space)
         ncfg = 1500 if quick else 40000
         reqs = config_sweep_requests(seed, ncfg)
@@ -521,6 +551,54 @@ def replay(doc):
     finally:
         subprocess.run(["chmod", "-R", "u+rwx", root], stderr=subprocess.DEVNULL)
         shutil.rmtree(root, ignore_errors=True)
+
+
+# ---------------------------------------------------------------- deep nesting (liveness / stack)
+
+def deep_source(kind, d):
+    if kind == "struct":
+        s = "".join(f"struct L{i} {{ int v{i}; " for i in range(d))
+        s += "".join((f"}} m{i}; " if i > 0 else "};") for i in reversed(range(d)))
+        return s, "c"
+    if kind == "ptr":
+        return "typedef int " + "*" * d + " deep_ptr;\nstruct P { deep_ptr p; };", "c"
+    if kind == "array":
+        return "struct A { char a" + "[2]" * min(d, 60) + "; };", "c"
+    if kind == "template":
+        return ("template <typename T> struct W { T v; };\nstruct T0 { int x; };\ntypedef " + "W<" * d + "T0" +
+                " >" * d + " deep_t;\nstruct U { deep_t d; };"), "c++"
+    if kind == "typedefchain":
+        return ("typedef int t0;\n" + "".join(f"typedef t{i} t{i + 1};\n" for i in range(d)) +
+                f"struct C {{ t{d} x; }};"), "c"
+    if kind == "inherit":
+        return ("struct B0 { int x; virtual void f(); };\n" +
+                "".join(f"struct B{i + 1} : B{i} {{ int y{i}; }};\n" for i in range(d))), "c++"
+    if kind == "fnptr":
+        return ("typedef int (*f0)(int);\n" + "".join(f"typedef f{i} (*f{i + 1})(f{i});\n" for i in range(d)) +
+                f"struct F {{ f{d} f; }};"), "c"
+    if kind == "namespace":
+        return ("".join(f"namespace n{i} {{ struct S{i} {{ int a; }}; " for i in range(d)) + "}" * d), "c++"
+    raise ValueError(kind)
+
+
+DEEP_KINDS = ["struct", "ptr", "array", "template", "typedefchain", "inherit", "fnptr", "namespace"]
+
+
+def deep_requests(root, depths):
+    d = os.path.join(root, "deep")
+    os.makedirs(d, exist_ok=True)
+    reqs = []
+    for kind in DEEP_KINDS:
+        for depth in depths:
+            src, lang = deep_source(kind, depth)
+            path = os.path.join(d, f"{kind}_{depth}." + ("hpp" if lang == "c++" else "h"))
+            with open(path, "w") as f:
+                f.write(src)
+            extra = ["-x", "c++", "-std=c++14", "-ftemplate-depth=2000"] if lang == "c++" else ["-x", "c", "-fbracket-depth=2000"]
+            flags = list(BASE_FLAGS) + (["--enable-cxx-namespaces"] if kind == "namespace" else []) + ["--"] + extra
+            reqs.append({"op": "gen", "job": {"id": f"deep:{kind}:{depth}", "header": path, "flags": flags},
+                         "arm_steps": True, "fix": {"seed": 0, "reference": False}})
+    return reqs
 
 
 # ---------------------------------------------------------------- configuration sweep (sampling, see scope note)
